@@ -22,6 +22,10 @@ type gatedSearch struct {
 	calls    int                // number of Search calls started
 	launches []context.Context  // context of every depth-1 call, in order: one per launched analysis
 	onCall   func(depth int)    // optional observer
+	// holdExitAt > 0: the iteration of that depth is also held AFTER it has completed, before its
+	// result is handed back to the caller (announced on exiting).
+	holdExitAt int
+	exiting    chan gateEvent
 }
 
 // launchCount returns how many analyses have made their first (depth 1) call so far.
@@ -70,5 +74,14 @@ func (g *gatedSearch) Search(ctx context.Context, sctx *search.Context, b *board
 		g.entering <- ev
 		<-ev.release
 	}
-	return g.inner.Search(ctx, sctx, b, depth)
+	n, score, pv, err := g.inner.Search(ctx, sctx, b, depth)
+	g.mu.Lock()
+	holdExit := g.holdExitAt > 0 && depth == g.holdExitAt && g.exiting != nil
+	g.mu.Unlock()
+	if holdExit {
+		ev := gateEvent{depth: depth, release: make(chan struct{}), ctx: ctx}
+		g.exiting <- ev
+		<-ev.release
+	}
+	return n, score, pv, err
 }
